@@ -227,6 +227,11 @@ pub fn run(out: &mut Out) {
             let mut s = HMC::<f64, B64, _>::new(DiffableGaussian2D::new([0.0f64, 1.0], [[4.0, 2.0], [2.0, 3.0]]), vec![vec![0.1, 0.2]; 3], 0.2, 3).set_seed(5);
             let (t, st) = s.run_progress(8, 3).map_err(|e| e.to_string())?;
             let v: Vec<f64> = t.to_data().to_vec().unwrap();
+            let mut r = HMC::<f64, B64, _>::new(DiffableGaussian2D::new([0.0f64, 1.0], [[4.0, 2.0], [2.0, 3.0]]), vec![vec![0.1, 0.2]; 3], 0.2, 3).set_seed(5);
+            let w: Vec<f64> = r.run(8, 3).to_data().to_vec().unwrap();
+            if v.iter().map(|x| x.to_bits()).collect::<Vec<_>>() != w.iter().map(|x| x.to_bits()).collect::<Vec<_>>() {
+                return Err("draws differ from run() on the f64 backend".into());
+            }
             let a = ndarray::Array3::from_shape_vec((3, 8, 2), v).unwrap();
             Ok((format!("{st:?}"), format!("{:?}", RunStats::from(a.view()))))
         })),
@@ -241,6 +246,18 @@ pub fn run(out: &mut Out) {
             let mut s = NUTS::<f64, B64, _>::new(Rosenbrock2D { a: 1.0f64, b: 100.0 }, vec![vec![0.1, 0.2]; 2], 0.8).set_seed(7);
             let (t, st) = s.run_progress(6, 3).map_err(|e| e.to_string())?;
             let v: Vec<f64> = t.to_data().to_vec().unwrap();
+            // the draws must be the full-precision trajectory run() returns (shifted by NUTS's one-draw offset)
+            let mut r = NUTS::<f64, B64, _>::new(Rosenbrock2D { a: 1.0f64, b: 100.0 }, vec![vec![0.1, 0.2]; 2], 0.8).set_seed(7);
+            let w: Vec<f64> = r.run(7, 3).to_data().to_vec().unwrap();
+            for ch in 0..2 {
+                for k in 0..6 {
+                    for j in 0..2 {
+                        if v[(ch * 6 + k) * 2 + j].to_bits() != w[(ch * 7 + k + 1) * 2 + j].to_bits() {
+                            return Err(format!("draws differ from run() on the f64 backend: chain {ch} draw {k}: {} vs {}", v[(ch * 6 + k) * 2 + j], w[(ch * 7 + k + 1) * 2 + j]));
+                        }
+                    }
+                }
+            }
             let a = ndarray::Array3::from_shape_vec((2, 6, 2), v).unwrap();
             Ok((format!("{st:?}"), format!("{:?}", RunStats::from(a.view()))))
         })),
